@@ -462,3 +462,50 @@ fn c03_t_hsl_helper_saturation() {
     assert!(saturation(r, g, b).to_bits() == R::sat(r, g, b).to_bits(), "saturation == max - min");
     kani::cover!(r == 1.0 && g == 0.5 && b == 0.25);
 }
+
+/// the channel selection of set_saturation -- Aseprite's MIN / MID / MAX lvalue macros including the documented quirk
+/// for r == g < b -- over ALL triples of doubles (comparisons only, no arithmetic)
+#[kani::proof]
+fn c03_q_hsl_sort_selection() {
+    let r: f64 = kani::any();
+    let g: f64 = kani::any();
+    let b: f64 = kani::any();
+    kani::assume(!r.is_nan() && !g.is_nan() && !b.is_nan());
+    let (a0, a1, a2) = static_sort3_orig(r, g, b);
+    let (e0, e1, e2) = R::set_sat_indices(r, g, b);
+    assert!(a0 == e0 && a1 == e1 && a2 == e2, "min / mid / max channel selection == Aseprite's macros");
+    kani::cover!(r == g && g < b && a1 == a0, "the quirk: min and mid denote the same channel");
+    kani::cover!(r > g && g > b);
+}
+
+/// concrete witnesses through the whole float helpers (constant-folded by symbolic execution, no solver search): the
+/// quirk inputs r == g < b, a grey, both clip_color branches, and the luminosity weights. These are POINT checks --
+/// they pin the compatibility flag and the constants, they do not cover the helpers' domain.
+#[kani::proof]
+#[kani::unwind(12)]
+fn c03_q_hsl_concrete_witnesses() {
+    const PTS: [(f64, f64, f64, f64); 8] = [
+        (0.2, 0.2, 0.8, 0.5),
+        (0.0, 0.0, 1.0, 1.0),
+        (0.5, 0.5, 0.5, 0.3),
+        (1.0, 0.0, 0.0, 0.25),
+        (0.1, 0.9, 0.4, 0.75),
+        (0.9, 0.1, 0.4, 0.05),
+        (0.3, 0.6, 0.6, 0.95),
+        (0.7, 0.7, 0.2, 0.6),
+    ];
+    for k in 0..8 {
+        let (r, g, b, x) = PTS[k];
+        assert!(luminosity(r, g, b).to_bits() == R::lum(r, g, b).to_bits(), "luminosity weights");
+        assert!(saturation(r, g, b).to_bits() == R::sat(r, g, b).to_bits());
+        let (p, q, t) = set_saturation(r, g, b, x);
+        let mut c = [r, g, b];
+        R::set_sat(&mut c, x);
+        assert!(p.to_bits() == c[0].to_bits() && q.to_bits() == c[1].to_bits() && t.to_bits() == c[2].to_bits(), "set_saturation at a witness point (incl. the r == g < b quirk)");
+        let (p, q, t) = set_luminocity(r, g, b, x);
+        let mut c = [r, g, b];
+        R::set_lum(&mut c, x);
+        assert!(p.to_bits() == c[0].to_bits() && q.to_bits() == c[1].to_bits() && t.to_bits() == c[2].to_bits(), "set_luminocity / clip_color at a witness point");
+    }
+    kani::cover!(true);
+}
